@@ -57,7 +57,7 @@ class C17(Check):
     TIERS = {'quick': {'runs': 250, 'wall': 80}, 'thorough': {'runs': 12000, 'wall': 800}}
     RUN_WALL = 120
     RULE = ('case = generated module (1..4 persistent parameters over all datatypes, persistent on/auto, with/without '
-            'write method, optionally given in the configuration) + history of <= 8 operations {set, assign, save, load, '
+            'write method, writable or read-only, optionally given in the configuration) + history of <= 8 operations {set, assign, save, load, '
             'factory_reset, restart}; per case the history is replayed once for every (file operation of every save) x '
             '{error, torn write, crash before, crash after, crash inside} -- exhaustive per history -- and the stored '
             'file is corrupted by truncation at every byte, sampled bit flips and type/key changes; evaluations = '
